@@ -86,7 +86,7 @@ def stress(ctx, n, race):
 def judge_common(ctx, prop, progres, stress_runs, races):
     """prop: 'C04' judges linearizability / panics / races; 'C05' judges
     blocked goroutines and termination."""
-    cov = {'programs': {}, 'schedules_replayed': 0, 'drift': 0, 'states': 0, 'transitions': 0}
+    cov = {'client_programs': {}, 'schedules_replayed': 0, 'drift': 0, 'states': 0, 'transitions': 0}
     items = []
     meta = {}
     for name, pr in progres.items():
@@ -105,7 +105,7 @@ def judge_common(ctx, prop, progres, stress_runs, races):
                                'observed': r, 'signature': {'engine': 'queue', 'kind': 'stuck', 'has_clear': hc}})
             if r['history']:
                 items.append((key, prog['cap'], r['history']))
-        cov['programs'][name] = {'distinct_states': pr['mc']['stats'].get('distinct'), 'edges': len(pr['mc']['edges']),
+        cov['client_programs'][name] = {'distinct_states': pr['mc']['stats'].get('distinct'), 'edges': len(pr['mc']['edges']),
                                  'model_violations': sorted(pr['mc']['violated']), 'schedules': len(pr['scheds']),
                                  'edges_not_covered': pr['uncovered'], 'replay': st}
         cov['schedules_replayed'] += len(pr['scheds'])
@@ -183,7 +183,7 @@ def finish_cov(cov, items, extra_rule=''):
             break
     cov['traces_validated_against_impl'] = cov['schedules_replayed'] + cov['stress_runs']
     cov['samples'] = [sample]
-    cov['exhaustive'] = all(p['edges_not_covered'] == 0 for p in cov['programs'].values())
+    cov['exhaustive'] = all(p['edges_not_covered'] == 0 for p in cov['client_programs'].values())
     cov['rule'] = ('TLC explores every interleaving of each client program on QueueImpl.tla; an edge-covering set of its behaviours '
                    'is forced onto real goroutines through the verif hooks, the real state is compared after every step, and every '
                    'recorded invoke/return history (forced and free-running) is judged by TLC against QueueLin.tla' + extra_rule)
